@@ -72,6 +72,91 @@ theorem bt_complete {r : Re} {a : Text} (hm : Matches r a) (b : Text) (k : Text 
       simp only [this, if_true]
       exact ih2 _ _ hk
 
+theorem btO_sound {α : Type} (r : Re) (s : Text) (k : Text → Option α) (x : α)
+    (h : btO r s k = some x) : ∃ a b, s = a ++ b ∧ Matches r a ∧ k b = some x := by
+  fun_induction btO r s k with
+  | case1 s k => exact ⟨[], s, rfl, .eps, h⟩
+  | case2 c k => cases h
+  | case3 c k d ds =>
+    cases hc : (c == d) with
+    | false => simp [hc, guardOpt] at h
+    | true =>
+      have : c = d := by simpa using hc
+      subst this
+      simp only [hc, guardOpt] at h
+      exact ⟨[c], ds, rfl, .chr c, h⟩
+  | case4 neg rs k => cases h
+  | case5 neg rs k d ds =>
+    cases hc : clsMatch neg rs d with
+    | false => simp [hc, guardOpt] at h
+    | true =>
+      simp only [hc, guardOpt] at h
+      exact ⟨[d], ds, rfl, .cls hc, h⟩
+  | case6 a b s k ih2 ih1 =>
+    obtain ⟨u, v, rfl, hu, hv⟩ := ih1 h
+    obtain ⟨p, q, rfl, hp, hq⟩ := ih2 _ hv
+    exact ⟨u ++ p, q, by simp, .cat hu hp, hq⟩
+  | case7 a b s k iha ihb =>
+    cases ha : btO a s k with
+    | some y =>
+      rw [ha] at h; simp at h; subst h
+      obtain ⟨u, v, e, hu, hv⟩ := iha ha; exact ⟨u, v, e, .altL hu, hv⟩
+    | none =>
+      rw [ha] at h; simp at h
+      obtain ⟨u, v, e, hu, hv⟩ := ihb h; exact ⟨u, v, e, .altR hu, hv⟩
+  | case8 a s k ih2 ih1 =>
+    cases ha : btO a s (fun s' => if s'.length < s.length then btO (.star a) s' k else none) with
+    | some y =>
+      rw [ha] at h; simp at h; subst h
+      obtain ⟨u, v, rfl, hu, hv⟩ := ih1 ha
+      simp only at hv
+      split at hv
+      · rename_i hlt
+        obtain ⟨p, q, rfl, hp, hq⟩ := ih2 _ hlt hv
+        exact ⟨u ++ p, q, by simp, .starCons hu hp, hq⟩
+      · cases hv
+    | none =>
+      rw [ha] at h; simp at h
+      exact ⟨[], s, rfl, .starNil, h⟩
+
+theorem btO_complete {α : Type} {r : Re} {a : Text} (hm : Matches r a) (b : Text)
+    (k : Text → Option α) (hk : (k b).isSome = true) : (btO r (a ++ b) k).isSome = true := by
+  induction hm generalizing b k with
+  | eps => simpa [btO] using hk
+  | chr c => simp [btO, guardOpt, hk]
+  | cls h => simp [btO, guardOpt, h, hk]
+  | cat _ _ iha ihb =>
+    rw [btO, List.append_assoc]
+    exact iha _ _ (ihb _ _ hk)
+  | altL _ ih =>
+    rw [btO]
+    have := ih _ _ hk
+    cases hb : btO _ (_ ++ b) k with
+    | none => simp [hb] at this
+    | some v => simp
+  | altR _ ih =>
+    rw [btO]
+    have := ih _ _ hk
+    cases hb : btO _ (_ ++ b) k <;> simp [this]
+  | starNil =>
+    rw [btO]
+    simp only [List.nil_append]
+    cases hb : btO _ b _ <;> simp [hk]
+  | @starCons a s t _ _ ih1 ih2 =>
+    cases s with
+    | nil => simpa using ih2 _ _ hk
+    | cons c cs =>
+      rw [btO, List.append_assoc]
+      have h1 := ih1 (t ++ b)
+        (fun s' => if s'.length < (c :: cs ++ (t ++ b)).length then btO (.star a) s' k else none)
+        (by
+          have : (t ++ b).length < (c :: cs ++ (t ++ b)).length := by simp; omega
+          simp only [this, if_true]
+          exact ih2 _ _ hk)
+      cases hb : btO a (c :: cs ++ (t ++ b)) _ with
+      | none => rw [hb] at h1; simp at h1
+      | some v => simp
+
 theorem fullMatch_iff (r : Re) (s : Text) : fullMatch r s = true ↔ Matches r s := by
   constructor
   · intro h
